@@ -1,7 +1,7 @@
 #!/bin/sh
 # tools/try_seed.sh <dir-with-patchN.diff+demoN.py> <N> <Cnn> [tier]  : confirm the demo both ways in a scratch worktree, then run the
 # check against /repo with the patch applied and undo it straight afterwards.
-DIR="$1"; N="$2"; PID="$3"; TIER="${4:-quick}"
+DIR="$(cd "$1" && pwd)"; N="$2"; PID="$3"; TIER="${4:-quick}"
 P="$DIR/patch$N.diff"; D="$DIR/demo$N.py"
 [ -f "$DIR/patch.diff" ] && P="$DIR/patch.diff" && D="$(ls $DIR/demo* | head -1)"
 if ! git -C /repo apply --check "$P" 2>/dev/null; then echo "PATCH-DOES-NOT-APPLY $P"; exit 3; fi
